@@ -27,6 +27,50 @@ pub(super) fn detect_cycles(ast: &Ast, diagnostics: &mut Diagnostics) {
         cycle_detector.type_being_checked = Some((candidate.module_scoped_identifier(), candidate));
         candidate.check_for_cycles(&mut cycle_detector)
     }
+
+    // Check for interfaces that inherit from themselves (directly or transitively).
+    // These must be rejected here, since later phases walk the inheritance graph recursively.
+    let mut reported_cycles = HashSet::new();
+    for node in ast.as_slice() {
+        if let Node::Interface(interface_ptr) = node {
+            let interface = interface_ptr.borrow();
+            let type_id = interface.module_scoped_identifier();
+
+            let mut path = Vec::new();
+            if find_inheritance_path_to(&type_id, interface, &mut HashSet::new(), &mut path) {
+                // Like for structs and enums, we only report each cycle once, not once for every interface in it.
+                if reported_cycles.insert(path.iter().cloned().collect::<BTreeSet<String>>()) {
+                    let cycle = type_id.clone() + " -> " + &path.join(" -> ");
+                    Diagnostic::new(Error::InfiniteSizeCycle { type_id, cycle })
+                        .set_span(interface.span())
+                        .push_into(diagnostics);
+                }
+            }
+        }
+    }
+}
+
+/// Searches the base interfaces of `current` (depth first) for the interface with the specified `target_id`.
+/// If it can be reached, this returns true, and `path` holds the type-ids of the interfaces leading to it (inclusive).
+fn find_inheritance_path_to(
+    target_id: &str,
+    current: &Interface,
+    visited: &mut HashSet<String>,
+    path: &mut Vec<String>,
+) -> bool {
+    for base in current.base_interfaces() {
+        let base_id = base.module_scoped_identifier();
+        path.push(base_id.clone());
+        if base_id == target_id {
+            return true;
+        }
+        // Only recurse into interfaces we haven't visited yet (this also guarantees termination).
+        if visited.insert(base_id) && find_inheritance_path_to(target_id, base, visited, path) {
+            return true;
+        }
+        path.pop();
+    }
+    false
 }
 
 /// This trait is implemented on a type if and only if it is possible for that type to cause a cycle.
